@@ -434,7 +434,9 @@ theorem cookedFor_unpack (m : MethodSpec) (c : Cooked) (d : PathDir) (subs : Lis
     cookParams m.verb (realParams m.alias (placeholders m.path))
       { aliasMap := m.alias.map (fun kv => (Expr.param kv.1, kv.2)) } m.params = .ok c := by
   unfold CookedFor cookParsed at h
-  simp only at h
+  by_cases hinj : (!decide ((m.alias.map (·.2)).Nodup)) = true
+  · simp [hinj] at h
+  simp only [hinj, Bool.false_eq_true, ↓reduceIte] at h
   cases hc : cookParams m.verb (realParams m.alias (placeholders m.path))
       { aliasMap := m.alias.map (fun kv => (Expr.param kv.1, kv.2)) } m.params with
   | error e => simp [hc] at h
@@ -567,8 +569,11 @@ theorem region_wf (i : IfaceSpec) (calls : List Call) (h : region i calls = "WF"
     F_twoDicts i = false ∧ F_qualScalar i = false ∧ F_nilStructDeref i calls = false ∧
     F_pathArgBrace i calls = false := by
   unfold region at h
-  cases h0 : structOk i <;> simp only [h0, Bool.not_false, Bool.not_true, Bool.false_eq_true, ↓reduceIte] at h
+  cases h0 : shapeOk i <;> simp only [h0, Bool.not_false, Bool.not_true, Bool.false_eq_true, ↓reduceIte] at h
   · exact absurd h (by decide)
+  cases h00 : i.methods.all aliasInjective <;> simp only [h00, Bool.not_false, Bool.not_true, Bool.false_eq_true, ↓reduceIte] at h
+  · exact absurd h (by decide)
+  have hso : structOk i = true := by simp [structOk, h0, h00]
   cases h3 : F_ptrDict i <;> simp only [h3, Bool.false_eq_true, ↓reduceIte] at h
   case true => exact absurd h (by decide)
   cases h4 : F_twoDicts i <;> simp only [h4, Bool.false_eq_true, ↓reduceIte] at h
@@ -579,6 +584,6 @@ theorem region_wf (i : IfaceSpec) (calls : List Call) (h : region i calls = "WF"
   case true => exact absurd h (by decide)
   cases h7 : F_pathArgBrace i calls <;> simp only [h7, Bool.false_eq_true, ↓reduceIte] at h
   case true => exact absurd h (by decide)
-  exact ⟨rfl, rfl, rfl, rfl, rfl, rfl⟩
+  exact ⟨hso, rfl, rfl, rfl, rfl, rfl⟩
 
 end ShootVerif.Rest
